@@ -3,14 +3,14 @@ import DarkluaModel.Shared.VisitorSound.Heap.HSound
 # Compatibility lemmas: lists, table entries, interpolation segments, targets
 -/
 namespace DarkluaModel.Sem.Heap
-variable {Q : QRel} {D : List String}
+variable {Q : QRel} {cx : Cx} {D : List String}
 
-theorem SoundEs.nil : SoundEs Q D [] [] := by
+theorem SoundEs.nil : SoundEs Q cx D [] [] := by
   intro N call ρ k env env' σ σ' β hc hs he; simp only [evalEs]; exact RRel.okEq hs
 
 /-- `hlen`: both tails are empty or both are not (the last element is evaluated multi-valued) -/
-theorem SoundEs.cons {x x' xs xs'} (hlen : xs = [] ↔ xs' = []) (ihx : SoundE Q D x x')
-    (ihxs : SoundEs Q D xs xs') : SoundEs Q D (x :: xs) (x' :: xs') := by
+theorem SoundEs.cons {x x' xs xs'} (hlen : xs = [] ↔ xs' = []) (ihx : SoundE Q cx D x x')
+    (ihxs : SoundEs Q cx D xs xs') : SoundEs Q cx D (x :: xs) (x' :: xs') := by
   intro N call ρ k env env' σ σ' β hc hs he
   cases xs with
   | nil =>
@@ -24,12 +24,12 @@ theorem SoundEs.cons {x x' xs xs'} (hlen : xs = [] ↔ xs' = []) (ihx : SoundE Q
       exact RRel.bindEq (ihx N call ρ k env env' σ σ' β hc hs he) fun β1 h1 _ _ _ h =>
         RRel.bindEq (ihxs N call ρ k env env' _ _ _ hc h (he.mono h1)) fun _ _ _ _ _ h => RRel.okEq h
 
-theorem SoundTs.nil : SoundTs Q D [] [] := by
+theorem SoundTs.nil : SoundTs Q cx D [] [] := by
   intro N call ρ k env env' σ σ' β hc hs he; simp only [evalTargets]
   exact RRel.ok ⟨rfl, fun _ h => absurd h (by simp)⟩ hs
 
-theorem SoundTs.cons {x x' xs xs'} (ihx : SoundT Q D x x') (ihxs : SoundTs Q D xs xs') :
-    SoundTs Q D (x :: xs) (x' :: xs') := by
+theorem SoundTs.cons {x x' xs xs'} (ihx : SoundT Q cx D x x') (ihxs : SoundTs Q cx D xs xs') :
+    SoundTs Q cx D (x :: xs) (x' :: xs') := by
   intro N call ρ k env env' σ σ' β hc hs he
   simp only [evalTargets]
   refine RRel.bind (ihx N call ρ k env env' σ σ' β hc hs he) fun β1 h1 tg tg' htg _ _ h => ?_
@@ -41,11 +41,11 @@ theorem SoundTs.cons {x x' xs xs'} (ihx : SoundT Q D x x') (ihxs : SoundTs Q D x
   | head => exact hok
   | tail _ ht => exact hoks t ht
 
-theorem SoundElifs.nil : SoundElifs Q D [] [] := by
+theorem SoundElifs.nil : SoundElifs Q cx D [] [] := by
   intro N call ρ k env env' σ σ' β hc hs he; simp only [evalElifs]; exact RRel.okEq hs
 
-theorem SoundElifs.cons {c c' t t' xs xs'} (ihc : SoundE Q D c c') (iht : SoundE Q D t t')
-    (ihxs : SoundElifs Q D xs xs') : SoundElifs Q D ((c, t) :: xs) ((c', t') :: xs') := by
+theorem SoundElifs.cons {c c' t t' xs xs'} (ihc : SoundE Q cx D c c') (iht : SoundE Q cx D t t')
+    (ihxs : SoundElifs Q cx D xs xs') : SoundElifs Q cx D ((c, t) :: xs) ((c', t') :: xs') := by
   intro N call ρ k env env' σ σ' β hc hs he
   simp only [evalElifs]
   refine RRel.bindEq (ihc N call ρ k env env' σ σ' β hc hs he) fun β1 h1 _ _ _ h => ?_
@@ -53,11 +53,11 @@ theorem SoundElifs.cons {c c' t t' xs xs'} (ihc : SoundE Q D c c') (iht : SoundE
   · exact RRel.bindEq (iht N call ρ k env env' _ _ _ hc h (he.mono h1)) fun _ _ _ _ _ h => RRel.okEq h
   · exact ihxs N call ρ k env env' _ _ _ hc h (he.mono h1)
 
-theorem SoundEntries.nil : SoundEntries Q D [] [] := by
+theorem SoundEntries.nil : SoundEntries Q cx D [] [] := by
   intro N call ρ k env env' t i σ σ' β hc hs he; simp only [evalEntries]; exact RRel.okEq hs
 
-theorem SoundEntries.pos {v v' xs xs'} (hlen : xs = [] ↔ xs' = []) (ihv : SoundE Q D v v')
-    (ihxs : SoundEntries Q D xs xs') : SoundEntries Q D (.pos v :: xs) (.pos v' :: xs') := by
+theorem SoundEntries.pos {v v' xs xs'} (hlen : xs = [] ↔ xs' = []) (ihv : SoundE Q cx D v v')
+    (ihxs : SoundEntries Q cx D xs xs') : SoundEntries Q cx D (.pos v :: xs) (.pos v' :: xs') := by
   intro N call ρ k env env' t i σ σ' β hc hs he
   cases xs with
   | nil =>
@@ -72,15 +72,15 @@ theorem SoundEntries.pos {v v' xs xs'} (hlen : xs = [] ↔ xs' = []) (ihv : Soun
       exact RRel.bindEq (ihv N call ρ k env env' σ σ' β hc hs he) fun β1 h1 _ _ _ h =>
         ihxs N call ρ k env env' _ _ _ _ _ hc (h.rawSet _ _ _) (he.mono h1)
 
-theorem SoundEntries.named {key v v' xs xs'} (ihv : SoundE Q D v v') (ihxs : SoundEntries Q D xs xs') :
-    SoundEntries Q D (.named key v :: xs) (.named key v' :: xs') := by
+theorem SoundEntries.named {key v v' xs xs'} (ihv : SoundE Q cx D v v') (ihxs : SoundEntries Q cx D xs xs') :
+    SoundEntries Q cx D (.named key v :: xs) (.named key v' :: xs') := by
   intro N call ρ k env env' t i σ σ' β hc hs he
   simp only [evalEntries]
   exact RRel.bindEq (ihv N call ρ k env env' σ σ' β hc hs he) fun β1 h1 _ _ _ h =>
     ihxs N call ρ k env env' _ _ _ _ _ hc (h.rawSet _ _ _) (he.mono h1)
 
-theorem SoundEntries.keyed {ke ke' v v' xs xs'} (ihk : SoundE Q D ke ke') (ihv : SoundE Q D v v')
-    (ihxs : SoundEntries Q D xs xs') : SoundEntries Q D (.keyed ke v :: xs) (.keyed ke' v' :: xs') := by
+theorem SoundEntries.keyed {ke ke' v v' xs xs'} (ihk : SoundE Q cx D ke ke') (ihv : SoundE Q cx D v v')
+    (ihxs : SoundEntries Q cx D xs xs') : SoundEntries Q cx D (.keyed ke v :: xs) (.keyed ke' v' :: xs') := by
   intro N call ρ k env env' t i σ σ' β hc hs he
   simp only [evalEntries]
   refine RRel.bindEq (ihk N call ρ k env env' σ σ' β hc hs he) fun β1 h1 _ _ _ h =>
@@ -93,16 +93,16 @@ theorem SoundEntries.keyed {ke ke' v v' xs xs'} (ihk : SoundE Q D ke ke') (ihv :
     · exact ihxs N call ρ k env env' _ _ _ _ _ hc (h.rawSet _ _ _) he2
   · exact ihxs N call ρ k env env' _ _ _ _ _ hc (h.rawSet _ _ _) he2
 
-theorem SoundSegs.nil : SoundSegs Q D [] [] := by
+theorem SoundSegs.nil : SoundSegs Q cx D [] [] := by
   intro N call ρ k env env' acc σ σ' β hc hs he; simp only [evalSegs]; exact RRel.okEq hs
 
-theorem SoundSegs.s {b xs xs'} (ihxs : SoundSegs Q D xs xs') : SoundSegs Q D (.s b :: xs) (.s b :: xs') := by
+theorem SoundSegs.s {b xs xs'} (ihxs : SoundSegs Q cx D xs xs') : SoundSegs Q cx D (.s b :: xs) (.s b :: xs') := by
   intro N call ρ k env env' acc σ σ' β hc hs he
   simp only [evalSegs]
   exact ihxs N call ρ k env env' _ _ _ _ hc hs he
 
-theorem SoundSegs.v {x x' xs xs'} (ihx : SoundE Q D x x') (ihxs : SoundSegs Q D xs xs') :
-    SoundSegs Q D (.v x :: xs) (.v x' :: xs') := by
+theorem SoundSegs.v {x x' xs xs'} (ihx : SoundE Q cx D x x') (ihxs : SoundSegs Q cx D xs xs') :
+    SoundSegs Q cx D (.v x :: xs) (.v x' :: xs') := by
   intro N call ρ k env env' acc σ σ' β hc hs he
   simp only [evalSegs]
   exact RRel.bindEq (ihx N call ρ k env env' σ σ' β hc hs he) fun β1 h1 _ _ _ h =>
@@ -111,22 +111,22 @@ theorem SoundSegs.v {x x' xs xs'} (ihx : SoundE Q D x x') (ihxs : SoundSegs Q D 
 
 /-! ### targets -/
 
-theorem SoundT.var {a} (ha : a ∉ D) : SoundT Q D (.var a) (.var a) := by
+theorem SoundT.var {a} (ha : a ∉ D) : SoundT Q cx D (.var a) (.var a) := by
   intro N call ρ k env env' σ σ' β hc hs he; simp only [evalTarget]; exact RRel.ok ⟨rfl, ha⟩ hs
 
-theorem SoundT.field {x x' n} (ih : SoundE Q D x x') : SoundT Q D (.field x n) (.field x' n) := by
+theorem SoundT.field {x x' n} (ih : SoundE Q cx D x x') : SoundT Q cx D (.field x n) (.field x' n) := by
   intro N call ρ k env env' σ σ' β hc hs he
   simp only [evalTarget]
   exact RRel.bindEq (ih N call ρ k env env' σ σ' β hc hs he) fun _ _ _ _ _ h => RRel.ok ⟨rfl, trivial⟩ h
 
-theorem SoundT.index {x x' i i'} (ih : SoundE Q D x x') (ihi : SoundE Q D i i') :
-    SoundT Q D (.index x i) (.index x' i') := by
+theorem SoundT.index {x x' i i'} (ih : SoundE Q cx D x x') (ihi : SoundE Q cx D i i') :
+    SoundT Q cx D (.index x i) (.index x' i') := by
   intro N call ρ k env env' σ σ' β hc hs he
   simp only [evalTarget]
   exact RRel.bindEq (ih N call ρ k env env' σ σ' β hc hs he) fun β1 h1 _ _ _ h =>
     RRel.bindEq (ihi N call ρ k env env' _ _ _ hc h (he.mono h1)) fun _ _ _ _ _ h => RRel.ok ⟨rfl, trivial⟩ h
 
-theorem SoundT.nonLv {x x' : Expr} (h : x.isLv = false) (h' : x'.isLv = false) : SoundT Q D x x' := by
+theorem SoundT.nonLv {x x' : Expr} (h : x.isLv = false) (h' : x'.isLv = false) : SoundT Q cx D x x' := by
   intro N call ρ k env env' σ σ' β hc hs he
   rw [evalTarget_nonLv _ _ _ _ _ h, evalTarget_nonLv _ _ _ _ _ h']
   exact RRel.errS hs
